@@ -45,6 +45,10 @@ def run(chk, tier):
         accumulation(chk, prog, cfg)
         phantom(chk, prog, cfg)
         ci.check_metatype_cmp(chk, prog, cfg, rule="R16.1")
+    # "PhantomData members are erased" is the library's job, by type identity: the derive hands every non-skipped member to the builders (a member whose
+    # type merely has that name is a member) -- decided on the declaration corpus
+    from . import c09
+    c09.corpus(chk, tier)
     n = len({i["construct"] for i in chk.instances if i["rule"] == "R17.1"})
     chk.floor("R17.1", n, 19, "builder setters counted from signatures: path, type_params, docs x3 (TypeBuilder); name, ty x2, compact, type_name, docs x3 "
               "(FieldBuilder); index, discriminant, fields, docs x3 (VariantBuilder)")
